@@ -53,8 +53,13 @@ def run(ctx):
     for f in small:
         nb = len(f["hex"]) // 2
         lim = rng.choice([1, 2, 3, 100000])
-        step = 1 if (nb <= 400 or not ctx.quick) else 3
-        for c in range(1, nb, step):
+        if nb <= 400 or not ctx.quick:
+            cut_positions = range(1, nb)
+        elif nb <= 1500:
+            cut_positions = range(1, nb, 3)
+        else:
+            cut_positions = sorted(set(list(range(1, 40)) + [rng.range(1, nb - 1) for _ in range(60)]))
+        for c in cut_positions:
             add(f, lim, [c], free_after=(0,) if rng.chance(1, 4) else ())
         if nb <= 40 or (not ctx.quick and nb <= 90):
             for c1 in range(1, nb):
@@ -71,6 +76,7 @@ def run(ctx):
         if nb <= 700:
             add(f, rng.choice([5, 100000]), list(range(1, nb)), tuple(range(0, nb, 9)))
     ans = C.harness(lines, timeout=2400)
+    D.compare_dops(ctx, lines, ans, 'dops(split)', sample=[i for i in range(len(lines)) if i % (1 if not ctx.quick else 3) == 0])
     ref = {}
     for line, (f, lim, cuts, frees), a in zip(lines, info, ans):
         can, fin, items, prob = collect(a)
